@@ -72,9 +72,13 @@ ALPHA = [
 
 def units(tier):
     us = [(["vf.props.c11", "cfg", [k]], h) for k, h in HISTORIES.values()]
-    if tier != "quick":
-        import itertools
+    import itertools
 
+    if tier == "quick":
+        # every pair of commands from the alphabet, after the client has learnt the UIDs
+        for combo in itertools.product(ALPHA[1:], repeat=2):
+            us.append((["vf.props.c11", "cfg", ["basic"]], [SEL, REVEAL] + list(combo)))
+    else:
         for n in (2, 3):
             for combo in itertools.product(ALPHA[1:], repeat=n):
                 us.append((["vf.props.c11", "cfg", ["basic"]], [SEL, REVEAL] + list(combo)))
